@@ -251,6 +251,10 @@ func run(c *rig.Ctx) {
 	nprog := c.N(300, 6000)
 	c.Part("programs", nprog, func(i int64, r *rig.Rng) {
 		p := prog.Generate(r, prog.Options{Interrupts: true, AllOpcodes: i%2 == 0, Hardware: i%3 == 0})
+		if i%6 == 5 {
+			p = prog.IdleLoops(r) // wait-for-interrupt loops instead of HALT
+			c.Count("idle_loop_programs", 1)
+		}
 		pm := rig.MustNew(p.ROM, rig.Opts{})
 		f := lockstep.New(pm)
 		f.Violate = func(prop, class, msg string) {
